@@ -12,16 +12,18 @@ func init() {
 		// the stop-tag variants of the sorted loops are sort-model executions too (their stop clause is C14's)
 		Methods:     []string{trace.MExecute, trace.MSel, trace.MSelCtl, trace.MExecute, trace.MSelCtl, trace.MExecuteStop, trace.MSelCtlStop},
 		StopSetters: 1,
-		Clauses:     trace.Clauses(trace.ClSeq, trace.ClOnce, trace.ClOrder, trace.ClPolicy, trace.ClError, trace.ClLate),
+		Clauses:     trace.Clauses(trace.ClSeq, trace.ClOnce, trace.ClOrder, trace.ClPolicy, trace.ClError, trace.ClLate, trace.ClSelect),
 		Gen:         trace.GenOpts{MinRules: 1, MaxRules: 10, FailProb: 0.25, RetProb: 0.3, WideSal: true},
 		Calls:       8,
 		PoolProb:    0.5,
+		DupNames:    true, // for a list with a duplicated name only 'no unselected rule runs' is decided
 	}
 	fw.Families["C04"] = func(k *fw.Case) { trace.RunCase(k, c04) }
 
 	c05 := &trace.Config{
+		// the stop-tag flavour of mix with a tag nobody sets is a mix-model execution as well
 		Methods: []string{trace.MMix, trace.MInverse, trace.MNSortMConc, trace.MNConcMSort, trace.MNConcMConc, trace.MSelMix, trace.MSelInverse,
-			trace.MSelNSortMConc, trace.MSelNConcMSort, trace.MSelNConcMConc, trace.MPoolEM, trace.MPoolEMSel},
+			trace.MSelNSortMConc, trace.MSelNConcMSort, trace.MSelNConcMConc, trace.MPoolEM, trace.MPoolEMSel, trace.MMixStop},
 		// select: a rule outside the set the model is applied to ran (for the selected variants that set is the selection)
 		Clauses:  trace.Clauses(trace.ClBarrier, trace.ClWindow, trace.ClOnce, trace.ClOrder, trace.ClPolicy, trace.ClSeq, trace.ClLate, trace.ClSelect),
 		Gen:      trace.GenOpts{MinRules: 1, MaxRules: 10, FailProb: 0.2, RetProb: 0.2, WideSal: true},
@@ -80,7 +82,7 @@ func init() {
 	c14 := &trace.Config{
 		Methods: []string{trace.MExecuteStop, trace.MMixStop, trace.MSelCtlStop, trace.MSelCtlStopGiven},
 		Clauses: trace.Clauses(trace.ClStop, trace.ClSeq, trace.ClOnce, trace.ClOrder, trace.ClPolicy, trace.ClError, trace.ClBarrier, trace.ClGiven,
-			trace.ClSelect, trace.ClLate),
+			trace.ClSelect, trace.ClLate, trace.ClResult), // result: 'identical to the variant without a tag' includes what the call hands back
 		Gen:         trace.GenOpts{MinRules: 1, MaxRules: 8, FailProb: 0.2, RetProb: 0.2},
 		Calls:       8,
 		PoolProb:    0.35,
